@@ -184,6 +184,7 @@ func ruleR4DeclUnify(c *Ctx) []Obligation {
 			out = append(out, ob)
 		}
 	}
+	out = append(out, r5sibCtxUnifyObligations(c)...)
 	sort.SliceStable(out, func(i, j int) bool { return out[i].Key < out[j].Key })
 	return out
 }
